@@ -3,8 +3,9 @@
 pub open spec fn binter_post(a: BoundSet, b: BoundSet, r: Option<BoundSet>) -> bool {
     &&& (r is Some) <==> boverlap(a, b)
     &&& r matches Some(x) ==> bs_wf(x)
-            && *x.lower == (if bound_cmp(*a.lower, *b.lower) == Ordering::Greater { *a.lower } else { *b.lower })
-            && *x.upper == (if bound_cmp(*a.upper, *b.upper) == Ordering::Greater { *b.upper } else { *a.upper })
+            // the greater of the two lower cuts and the lesser of the two upper cuts; at a tie (same version and inclusivity, possibly
+            // different build metadata) either operand's bound will do: the property does not say which
+            && inter_bounds(a, b, x)
             && forall|v: VKey| #![trigger within(x, v)] (within(x, v) <==> (within(a, v) && within(b, v)))
     &&& (bs_small(a) && bs_small(b)) ==> (r matches Some(x) ==> bs_small(x))
     &&& r is None ==> forall|v: VKey| #![trigger within(a, v), within(b, v)] !(within(a, v) && within(b, v))
